@@ -26,8 +26,11 @@ LEVEL_NOTE = ("Trusts rustc MIR construction, the extractor, engine dominators/s
 EXPLANATION = ("Rules over the MIR of api_description::ApiDescription::{register, register::_register, validate_tags, validate_path_parameters, validate_named_parameters} and "
                "router::{HttpRouter::insert, insert_var} extracted from the current tree: PASS/DOM on the pruned CFG, TABLE extraction from discriminant switches with access-path provenance of "
                "the compared operands, SHAPE facts from the ADT tables, DECIDE by abstract interpretation for validate_tags (all finite input shapes, tag counts 0..3) and for overlaps_with "
-               "(all weak orders).")
-TRUSTED = ["rustc nightly MIR construction + const evaluation", "mirfacts extractor", "rules/engine.py, rules/lib_c01.py, rules/absint.py", "std collections semantics",
+               "(all weak orders). The rules are written over roles, not spellings: a validation's result may be split by `?`, match or if-let (and the three calls may sit in an inlined private helper - "
+               "feasibility of paths is then decided with the variant of the returned Result propagated); the overlap test may be a loop or an iter().find/position/any search over the list that is pushed to; "
+               "sets and maps of template variables may be built by filter_map + collect or by a loop with insert, with arms merged by or-patterns; validate_tags is interpreted with std's "
+               "find/any/all/position/filter summarised, so a for loop with early return and an Iterator::find are the same function to the check.")
+TRUSTED = ["rustc nightly MIR construction + const evaluation", "mirfacts extractor", "rules/engine.py, rules/lib_c01.py, rules/absint.py", "std collections semantics", "std Iterator::{find, position, any, all, filter, count} semantics (summarised for the interpretation of validate_tags and for the overlap search)",
            "semver::Version PartialOrd (total order)", "type_util::type_is_scalar / type_is_string_enum (schemars-level, unit-tested upstream)"]
 
 VP = VALUE_PRESERVING
@@ -157,13 +160,12 @@ def r2_conflict_table(ctx):
     if node is None:
         ctx.lost(R, "the `node` cursor (receivers of Option::get_or_insert on .edges: %s)" % sorted(node_roots))
         return
-    # the local the arms leave the child in (what node is advanced to inside the loop)
-    child_local = None
+    # every value the cursor can receive inside the loop (a `node = match ..` result is followed into the arms; arms may also assign the cursor directly)
+    loop_values = []
     for bb, k, n in ins.defs().get(node, []):
         if k == "assign" and not n["pl"]["p"] and ins.edge_dominates(osw, o_some, bb):
-            p = access_path(ins, n["rv"].get("op") or n["rv"].get("pl"), VP)
-            if p.kind() == "local" and not p.path:
-                child_local = p.root[1]
+            for p in sources(ins, n["rv"].get("op") or n["rv"].get("pl"), VP, stop={node}):
+                loop_values.append((bb, p))
     vs_calls = ins.live_calls(r"^router::insert_var$")
     set_roots = set()
     for seg, edge in SEG_TO_EDGE.items():
@@ -211,23 +213,21 @@ def r2_conflict_table(ctx):
         def indesc(b, dt=dt):
             return dt is not None and ins.edge_dominates(ebb, dt, b)
         # the child descended into
-        cd = [(bb, k, n) for bb, k, n in ins.defs().get(child_local, []) if indesc(bb)] if child_local is not None else []
+        cd = [p for nb, p in loop_values if indesc(nb) or any(indesc(hb) for _l, hb in p.hops) or (p.call() is not None and indesc(p.call()[1]))]
         okc = False
         pc = None
         if len(cd) == 1:
-            bb, k, n = cd[0]
-            if k == "assign":
-                pc = access_path(ins, n["rv"].get("op") or n["rv"].get("pl"), VP)
-                if edge == "Literals":
-                    if pc.is_call(r"btree_map::Entry::<'a, K, V, A>::or_insert_with$|btree_map::Entry::<'a, K, V, A>::or_insert$|btree_map::Entry::<'a, K, V, A>::or_default$"):
-                        pent = access_path(ins, pc.call()[2]["args"][0], VP)
-                        if pent.is_call(r"BTreeMap::<K, V, A>::entry$"):
-                            pm = access_path(ins, pent.call()[2]["args"][0], VP)
-                            pk = access_path(ins, pent.call()[2]["args"][1], VP)
-                            okc = pm.call() and pm.call()[2] is gt and pm.path == ["as Literals", "0"] and pk.root_local() == seg_local and pk.path == ["as Literal", "0"]
-                            pc = "entry(%r, %r).or_insert_with(new node)" % (pm, pk)
-                else:
-                    okc = pc.call() and pc.call()[2] is gt and pc.path == ["as " + edge, "1"]
+            pc = cd[0]
+            if edge == "Literals":
+                if pc.is_call(r"btree_map::Entry::<'a, K, V, A>::or_insert_with$|btree_map::Entry::<'a, K, V, A>::or_insert$|btree_map::Entry::<'a, K, V, A>::or_default$") and not pc.path:
+                    pent = access_path(ins, pc.call()[2]["args"][0], VP)
+                    if pent.is_call(r"BTreeMap::<K, V, A>::entry$"):
+                        pm = access_path(ins, pent.call()[2]["args"][0], VP)
+                        pk = access_path(ins, pent.call()[2]["args"][1], VP)
+                        okc = pm.call() and pm.call()[2] is gt and pm.path == ["as Literals", "0"] and pk.root_local() == seg_local and pk.path == ["as Literal", "0"]
+                        pc = "entry(%r, %r).or_insert_with(new node)" % (pm, pk)
+            else:
+                okc = pc.call() and pc.call()[2] is gt and pc.path == ["as " + edge, "1"]
         ctx.check(R, "%s:descends-into-that-edge's-child" % seg, okc, "node advances to %s" % (pc,), (ins, ebb))
         if edge == "Literals":
             continue
@@ -673,7 +673,7 @@ def r5_parameter_rules(ctx):
             oth = vnp.blocks[sbb]["term"]["otherwise"]
             if oth not in tg.values():
                 avoid_e.append((sbb, oth))
-        r = vnp.reachable(n_some, avoid=sites_by_variant[var], avoid_edges=avoid_e)
+        r = const_reach(vnp, n_some, avoid=sites_by_variant[var], avoid_edges=avoid_e)      # constant flags (matches!) are propagated
         esc = nbb in r or any(b in r for b in ok_return_blocks(vnp))
         ctx.check(R, "vnp:every-%s-parameter-is-checked" % var, bool(sites_by_variant[var]) and not esc,
                   "a %s parameter can reach the next iteration / Ok without passing a type check: %s" % (var, esc), (vnp, nbb))
@@ -970,6 +970,16 @@ SELFTEST = [
     {"name": "validation-result-ignored", "kind": "mutant", "expect": ["C02.R1"],
      "edits": [(AD, "            s.validate_path_parameters(&e)?;\n", "            if let Err(_unused) = s.validate_path_parameters(&e) {}\n")],
      "why": "the validation is still called but its Err no longer stops the registration"},
+    {"name": 'validations-helper-ignores-one-result', "kind": "mutant", "expect": ['C02.R1'],
+     "edits": [(AD, '            s.validate_tags(&e)?;\n            s.validate_path_parameters(&e)?;\n            s.validate_named_parameters(&e)?;\n', '            s.validate_endpoint(&e)?;\n'),
+               (AD, '    /// Validate that the tags conform to the tags policy.\n', '    fn validate_endpoint(&self, e: &ApiEndpoint<Context>) -> Result<(), String> {\n        self.validate_tags(e)?;\n        let _ = self.validate_path_parameters(e);\n        self.validate_named_parameters(e)\n    }\n\n    /// Validate that the tags conform to the tags policy.\n')],
+     "why": 'the three validations are moved into one helper, which discards the result of validate_path_parameters'},
+    {"name": 'template-set-loop-misses-wildcard', "kind": "mutant", "expect": ['C02.R5'],
+     "edits": [(AD, '        let path = route_path_to_segments(&e.path)\n            .iter()\n            .filter_map(|segment| match PathSegment::from(segment) {\n                PathSegment::VarnameSegment(v) => Some(v),\n                PathSegment::VarnameWildcard(v) => Some(v),\n                PathSegment::Literal(_) => None,\n            })\n            .collect::<HashSet<_>>();\n', '        let mut path = HashSet::new();\n        for segment in route_path_to_segments(&e.path).iter() {\n            match PathSegment::from(segment) {\n                PathSegment::VarnameSegment(v) => {\n                    path.insert(v);\n                }\n                PathSegment::VarnameWildcard(_) | PathSegment::Literal(_) => {}\n            }\n        }\n')],
+     "why": "the template's variable set is built by a loop that leaves out wildcard variables"},
+    {"name": 'kind-map-loop-swaps-kinds', "kind": "mutant", "expect": ['C02.R5'],
+     "edits": [(AD, '        let path_segments = route_path_to_segments(&e.path)\n            .iter()\n            .filter_map(|segment| {\n                let seg = PathSegment::from(segment);\n                match seg {\n                    PathSegment::VarnameSegment(v) => {\n                        Some((v, SegmentOrWildcard::Segment))\n                    }\n                    PathSegment::VarnameWildcard(v) => {\n                        Some((v, SegmentOrWildcard::Wildcard))\n                    }\n                    PathSegment::Literal(_) => None,\n                }\n            })\n            .collect::<BTreeMap<_, _>>();\n', '        let mut path_segments = BTreeMap::new();\n        for segment in route_path_to_segments(&e.path).iter() {\n            match PathSegment::from(segment) {\n                PathSegment::VarnameSegment(v) => {\n                    path_segments.insert(v, SegmentOrWildcard::Wildcard);\n                }\n                PathSegment::VarnameWildcard(v) => {\n                    path_segments.insert(v, SegmentOrWildcard::Segment);\n                }\n                PathSegment::Literal(_) => {}\n            }\n        }\n')],
+     "why": 'the name -> kind map is built by a loop that records Segment for wildcards and Wildcard for segments'},
     # ---------------------------------------------------------------- benign variants
     {"name": "benign-negated-equality", "kind": "benign",
      "edits": [(RT, "if *new_varname != *varname {\n                                // Don't allow people", "if !(*new_varname == *varname) {\n                                // Don't allow people")],
@@ -1012,6 +1022,22 @@ SELFTEST = [
     {"name": "benign-validation-error-by-match", "kind": "benign",
      "edits": [(AD, "            s.validate_tags(&e)?;\n", "            if let Err(message) = s.validate_tags(&e) {\n                return Err(message);\n            }\n")],
      "why": "behaviour-preserving: `?` on a Result<(), String> written as if-let + return"},
+    {"name": 'benign-validations-in-one-helper', "kind": "benign",
+     "edits": [(AD, '            s.validate_tags(&e)?;\n            s.validate_path_parameters(&e)?;\n            s.validate_named_parameters(&e)?;\n', '            s.validate_endpoint(&e)?;\n'),
+               (AD, '    /// Validate that the tags conform to the tags policy.\n', '    fn validate_endpoint(&self, e: &ApiEndpoint<Context>) -> Result<(), String> {\n        self.validate_tags(e)?;\n        self.validate_path_parameters(e)?;\n        self.validate_named_parameters(e)\n    }\n\n    /// Validate that the tags conform to the tags policy.\n')],
+     "why": 'behaviour-preserving: the three `validate_x(&e)?` calls extracted into one private helper called with `?`'},
+    {"name": 'benign-template-set-built-by-loop', "kind": "benign",
+     "edits": [(AD, '        let path = route_path_to_segments(&e.path)\n            .iter()\n            .filter_map(|segment| match PathSegment::from(segment) {\n                PathSegment::VarnameSegment(v) => Some(v),\n                PathSegment::VarnameWildcard(v) => Some(v),\n                PathSegment::Literal(_) => None,\n            })\n            .collect::<HashSet<_>>();\n', '        let mut path = HashSet::new();\n        for segment in route_path_to_segments(&e.path).iter() {\n            match PathSegment::from(segment) {\n                PathSegment::VarnameSegment(v) | PathSegment::VarnameWildcard(v) => {\n                    path.insert(v);\n                }\n                PathSegment::Literal(_) => {}\n            }\n        }\n')],
+     "why": 'behaviour-preserving: filter_map(..).collect::<HashSet<_>>() written as a for loop inserting into a set (arms merged by an or-pattern)'},
+    {"name": 'benign-kind-map-built-by-loop', "kind": "benign",
+     "edits": [(AD, '        let path_segments = route_path_to_segments(&e.path)\n            .iter()\n            .filter_map(|segment| {\n                let seg = PathSegment::from(segment);\n                match seg {\n                    PathSegment::VarnameSegment(v) => {\n                        Some((v, SegmentOrWildcard::Segment))\n                    }\n                    PathSegment::VarnameWildcard(v) => {\n                        Some((v, SegmentOrWildcard::Wildcard))\n                    }\n                    PathSegment::Literal(_) => None,\n                }\n            })\n            .collect::<BTreeMap<_, _>>();\n', '        let mut path_segments = BTreeMap::new();\n        for segment in route_path_to_segments(&e.path).iter() {\n            match PathSegment::from(segment) {\n                PathSegment::VarnameSegment(v) => {\n                    path_segments.insert(v, SegmentOrWildcard::Segment);\n                }\n                PathSegment::VarnameWildcard(v) => {\n                    path_segments.insert(v, SegmentOrWildcard::Wildcard);\n                }\n                PathSegment::Literal(_) => {}\n            }\n        }\n')],
+     "why": 'behaviour-preserving: the name -> kind BTreeMap built by a for loop with insert instead of filter_map + collect'},
+    {"name": 'benign-edge-created-lazily', "kind": "benign",
+     "edits": [(RT, '                    let edges = node.edges.get_or_insert(\n                        HttpRouterEdges::VariableSingle(\n                            new_varname.clone(),\n                            Box::new(HttpRouterNode::new()),\n                        ),\n                    );\n', '                    let edges = node.edges.get_or_insert_with(|| {\n                        HttpRouterEdges::VariableSingle(\n                            new_varname.clone(),\n                            Box::new(HttpRouterNode::new()),\n                        )\n                    });\n')],
+     "why": 'behaviour-preserving: get_or_insert(value) written as get_or_insert_with(|| value)'},
+    {"name": 'benign-type-check-error-by-if-let', "kind": "benign",
+     "edits": [(AD, '                    type_is_scalar(\n                        &e.operation_id,\n                        name,\n                        schema,\n                        dependencies,\n                    )?;\n                }\n                _ => (),', '                    if let Err(message) = type_is_scalar(\n                        &e.operation_id,\n                        name,\n                        schema,\n                        dependencies,\n                    ) {\n                        return Err(message);\n                    }\n                }\n                _ => (),')],
+     "why": 'behaviour-preserving: `type_is_scalar(..)?` written as if let Err(m) = .. { return Err(m) }'},
     {"name": "benign-panic-in-helper", "kind": "benign",
      "edits": [(RT, _CONTAINS_PANIC, "    if varnames.contains(new_varname) {\n        duplicate_variable(path, new_varname);\n    }\n"),
                (RT, "/// Insert a variable into the set after checking for duplicates.",
